@@ -436,6 +436,31 @@ func universeOf(chain []*dbBlock) dbUniverse {
 	return u
 }
 
+// fullUniverseOf: every state key, in-state operation and known operation of the chain
+func fullUniverseOf(chain []*dbBlock) dbUniverse {
+	u := universeOf(chain)
+	seen := map[string]bool{}
+
+	for _, k := range u.keys {
+		seen[k] = true
+	}
+
+	u.inState = nil
+
+	for _, b := range chain {
+		for _, st := range b.states {
+			if !seen[st.Key()] {
+				seen[st.Key()] = true
+				u.keys = append(u.keys, st.Key())
+			}
+
+			u.inState = append(u.inState, st.Operations()...)
+		}
+	}
+
+	return u
+}
+
 func (m *dbModel) expected(u dbUniverse) readSet {
 	rs := readSet{items: map[string]string{}}
 	top := m.top()
